@@ -238,7 +238,8 @@ def run_impl(case, emitter=None):
         M.MQ.__init__ = real_init; F.time = old_time; F.Filter.emitter = old_emitter; F.LOG_UTC = old_utc
     obs = {'outcome': outcome, 'stop': ev.is_set(), 'log': (['ctor'] if h.flt is not None else []) + h.log,
            'sent': list(h.sent_calls), 'fired': h.fired, 'exc_class': exc_class,
-           'open_socks': sum(1 for x in world.all_socks if not x.closed) - base_open, 'ctx_ref': Z.ZMQContext.context[1] - base_ref}
+           'open_socks': sum(1 for x in world.all_socks if not x.closed) - base_open, 'ctx_ref': Z.ZMQContext.context[1] - base_ref,
+           't0': h.t0, 'exit_after_t': getattr(h.flt, 'exit_after_t', None)}     # the deadline Filter.init computed (timespec.end_to_end)
     # what the neighbours actually receive over the (fake) wire, through their real recv/send
     world.deliver_due()
     try:
